@@ -118,4 +118,17 @@ theorem accepted_limits_are_numbers (p : Check.Prog) (h : validate p = some []) 
     simp only [Bad, checkStmt, checkLimit, hnum]
     cases hacc : checkAccessExpr (mkEnv p) t.variables path <;> simp [atLine]
 
+/-- the guards of an accepted program - Conditions and While Loops at any nesting depth - contain, at any depth of
+    the expression, only And / Or whose operands count as boolean: the scheduler's `operator.and_` / `or_` never get a
+    float (the TypeError repaired by `fix:` 454dcae) -/
+theorem accepted_condition_logic_ok (p : Check.Prog) (h : validate p = some []) (t : Check.Task)
+    (e : Expr) (ps fs : List Stmt) (line : Nat) (hn : Nested p t (.cond e ps fs line)) :
+    LogicOk (mkEnv p) t.variables e :=
+  Classical.byContradiction fun hb => logic_operand_in_condition p [] h t e ps fs line hn hb rfl
+
+theorem accepted_while_logic_ok (p : Check.Prog) (h : validate p = some []) (t : Check.Task)
+    (e : Expr) (body : List Stmt) (line : Nat) (hn : Nested p t (.wloop e body line)) :
+    LogicOk (mkEnv p) t.variables e :=
+  Classical.byContradiction fun hb => logic_operand_in_while_guard p [] h t e body line hn hb rfl
+
 end Pfdl.Props.C09
